@@ -195,6 +195,27 @@ theorem frame (e : Expr) (c c' : Ctx α)
   | selfVal => exact frame_aux _ c c' h rfl
   | call n args => exact frame_aux _ c c' h rfl
 
+/-! ## 5b. Evaluation has no memory (context purity) -/
+
+/-- **Evaluation has no memory.** Whatever a parsed instance has been evaluated against before, evaluating it under a
+sequence of contexts yields, at every step, `eval e c` of that step's context alone: the outcome is a function of the
+tree and the current context only (no memoisation, no state leaking from one evaluation into the next). This is the
+theorem the "same instance under further contexts" part of the correspondence check points to. -/
+theorem eval_has_no_memory (i : Instance α) (cs : List (Ctx α)) : i.run cs = cs.map (eval i.expr) := by
+  induction cs generalizing i with
+  | nil => rfl
+  | cons c rest ih =>
+    simp only [Instance.run, List.map]
+    rw [ih]
+    rfl
+
+/-- Re-evaluating the same instance equals evaluating a fresh parse: after ANY earlier evaluations `before`, the
+outcome under `c` is the one a freshly parsed copy gives under `c`. -/
+theorem same_instance_equals_fresh_parse (e : Expr) (before : List (Ctx α)) (c : Ctx α) :
+    ((Instance.fresh e).run (before ++ [c])).getLast? = ((Instance.fresh e).run [c]).getLast? := by
+  rw [eval_has_no_memory, eval_has_no_memory]
+  simp [Instance.fresh]
+
 /-! ## 6. Domains: inputs outside a function's domain never yield a value -/
 
 /-- DIV and MOD by a zero divisor (0, 0.0, -0.0, false) are an evaluation error. -/
@@ -508,6 +529,14 @@ example : applyFn true 0 "ROUND" [.i 25, .i (-1)] = (.val (.i 20) : Res Rat) ∧
     applyFn true 0 "ROUND" [.i 35, .i (-1)] = (.val (.i 40) : Res Rat) := by decide +kernel
 example : applyFn true 0 "MOD" [.i (-7), .i 3] = (.val (.i 2) : Res Rat) ∧
     applyFn true 0 "MOD" [.i 7, .i (-3)] = (.val (.i (-2)) : Res Rat) := by decide +kernel
+-- one instance, three contexts: the lookup table's y (port a) changes while the x's stay
+example : (Instance.fresh (.call "LUT" [.lit "2", .lit "1", .portVal "a", .lit "2.5", .lit "0.2"])).run
+      [exCtx, { exCtx with vals := fun id => if id = "a" then some (.i 8) else none }, exCtx]
+    = [.val (.f (2/10)), .val (.f (2/10)), .val (.f (2/10))] := by decide +kernel
+example : (Instance.fresh (.call "LUT" [.lit "1", .lit "1", .portVal "a", .lit "2.5", .lit "0.2"])).run
+      [exCtx, { exCtx with vals := fun id => if id = "a" then some (.i 8) else none },
+       { exCtx with vals := fun _ => none }]
+    = [.val (.i 3), .val (.i 8), .unavailable] := by decide +kernel
 -- the code as found on the witness, and the repaired evaluator, on the exact carrier
 example : (evalU witnessExpr (witnessCtx (α := Rat))) = (.error .unknownPort, 3) := by decide +kernel
 example : applyFn false 0 "POW" [.f (-1 : Rat), .f (1/2)] = .complexVal := by decide +kernel
